@@ -42,6 +42,7 @@ type S struct {
 	srv      *world.Server
 	srv2     *world.Server
 	prx      *tars.ServantProxy
+	tls      bool
 	prxs     []*tars.ServantProxy // all proxy objects for the servant (they share manager, adapters, pending table)
 	before   tars.VerifProxyState
 	after    tars.VerifProxyState
@@ -95,10 +96,20 @@ func (s *S) Run(c *scen.Ctx) {
 		return
 	}
 	s.srv.OnAccept = func(sc *world.SrvConn) bool { return s.onAccept(c, sc) }
-	s.prx = world.Proxy(comm, "App.Srv.Obj@tcp -h 10.0.0.9 -p 1000 -t 3000")
+	// an ssl endpoint whose peer never completes a TLS handshake (it is not a TLS server at all: it
+	// stays silent, closes, or answers with something else): connecting includes the handshake,
+	// and the connection-establishment bound covers both
+	obj := "App.Srv.Obj@tcp -h 10.0.0.9 -p 1000 -t 3000"
+	if s.faults && simrt.Draw(8, "c09.tls") == 7 {
+		obj = "App.Srv.Obj@ssl -h 10.0.0.9 -p 1000 -t 3000"
+		s.tls = true
+		c.Count("fault.tls_handshake_never_completes", 1)
+	}
+	c.Describe("ssl_endpoint", s.tls)
+	s.prx = world.Proxy(comm, obj)
 	s.prxs = []*tars.ServantProxy{s.prx}
 	for i := []int{0, 0, 1, 2}[simrt.Draw(4, "c09.proxies")]; i > 0; i-- {
-		s.prxs = append(s.prxs, world.Proxy(comm, "App.Srv.Obj@tcp -h 10.0.0.9 -p 1000 -t 3000"))
+		s.prxs = append(s.prxs, world.Proxy(comm, obj))
 	}
 	if simrt.Draw(4, "c09.pushcb") == 3 {
 		// a push client: the proxy has a push callback (the framework then keeps the connection alive)
